@@ -322,10 +322,11 @@ def run_cases(ctx, cases):
 
 def run(ctx):
     ctx.make_overlay(need_kernel=True)
-    ctx.regen_all(needed=("py2v_readbatch.py",))  # Gen/ReadBatchGen.v: the four batch readers as the source has them now
+    ctx.regen_all(needed=("py2v_readbatch.py", "py2v_write.py"))  # Gen/ReadBatchGen.v: the four batch readers as the source has them now
     ok = ctx.build_models(MODELS)
     if ok:
         ctx.build_props()
+        ctx.build_props("Props/C12w.vo")  # the generated HDF5 writer (file / group / dataset level) refines the table-level write, for every flag combination
         ctx.build_props("Props/C12g.vo")  # the generated column-wise readers return the rows of the row model
     cases = gen_cases(ctx)
     n_eval = nt = 0
